@@ -148,7 +148,7 @@ class Ctx:
             self.driver = out
         return out
 
-    def drive(self, cases, out, driver=None, timeout=3600, env=None, shards=1):
+    def drive(self, cases, out, driver=None, timeout=3600, env=None, shards=1, prop=None):
         """Run the driver on the case file; shards > 1 splits the cases round-robin over parallel driver
         processes (each crash-isolated as usual) and concatenates their logs."""
         driver = driver or self.driver or self.build_driver()
@@ -169,7 +169,7 @@ class Ctx:
 
         def one(part):
             cp, op = part
-            cmd = [driver, "-prop", self.prop, "-cases", cp, "-out", op, "-seed", str(self.seed), "-tier", self.tier]
+            cmd = [driver, "-prop", prop or self.prop, "-cases", cp, "-out", op, "-seed", str(self.seed), "-tier", self.tier]
             try:
                 p = subprocess.run(cmd, cwd=self.scratch, env=e, stdout=subprocess.PIPE, stderr=subprocess.PIPE,
                                    text=True, timeout=timeout)
@@ -187,7 +187,7 @@ class Ctx:
                     if os.path.exists(op):
                         f.write(open(op).read())
         n = sum(1 for _ in open(out)) if os.path.exists(out) else 0
-        log("[drv] %s: %d log lines in %.1fs (%d driver process%s)  %s" % (self.prop, n, time.time() - t, len(parts),
+        log("[drv] %s: %d log lines in %.1fs (%d driver process%s)  %s" % (prop or self.prop, n, time.time() - t, len(parts),
                                                                           "es" if len(parts) > 1 else "", tails[0]))
         return n
 
